@@ -130,7 +130,7 @@ _EXT = {
  "C04": "buggify yields in the task workers and after the queue returns memory; refuse-heavy runs (several failure statuses per message); caller context cancelled during request set-up; back-pressure family (small responder memory allowance, optionally fail-fast sends); a third of the runs are lock-yield runs (DESIGN 13.8): a goroutine may be held before a lock acquisition of the sending path made with no instrumented lock held; signatures of the recorded queue-shutdown class and of the residual f6868ad window carry their input-class tag",
  "C05": "same additions as C04; a response reported failed on the network must not later complete successfully; same additions as C04",
  "C23": "same additions as C04; same additions as C04; a lock-yield point before TaskDone (never on a manager's event loop)",
- "C06": "runs with a responder that lacks 30% of the blocks; empty and codec-alias leaves; a third of the quiet runs may hold a goroutine before TaskDone's lock (lock-yield build, function filter), which does not count against 'quiet'",
+ "C06": "runs with a responder that lacks 30% of the blocks; empty and codec-alias leaves; a third of the quiet runs may hold a goroutine before TaskDone's lock (lock-yield build, function filter), which does not count against 'quiet'; the resumed response of a quiet requestor pause is also checked on the wire: no block within the re-request's skip count is transmitted",
  "C07": "a second request after the first with a per-request budget of its own; 35% of responder-side runs on a responder that lacks blocks (every link tried is charged and is one metadata entry, found or not)",
  "C08": "specs wrapped in up to 150 further clauses of one kind or in rotation; a quarter of the runs have an admission hook that pauses the scripted peer's requests without validating them and an operator who releases them",
  "C09": "a second victim request; intruder messages naming r1, r2 and an unknown ID in any combination; the response data handed to each block hook must be one the genuine responder sent; a third of the runs may hold a goroutine before it hands a message to the request manager's event loop (call points, DESIGN 13.8)",
